@@ -73,6 +73,21 @@ def urlsplit (v6ok : Str → Bool) (url scheme : Str) : Except Exn Split :=
     let (url, query) := cut '?' url           -- if '?' in url: url, query = url.split('?', 1)
     .ok ⟨scheme, netloc, url, query, fragment⟩
 
+/-- `_splitparams(url)[0]` as `urlparse` applies it when ";" occurs in the path (scheme "http"
+    is in `uses_params`): cut the last path segment at its first ";". -/
+def splitParams (path : Str) : Str :=
+  if !path.contains ';' then path
+  else if path.contains '/' then
+    let (before, _, lastSeg) := rpartition '/' path
+    if lastSeg.contains ';' then before ++ '/' :: lastSeg.takeWhile (· != ';') else path
+  else path.takeWhile (· != ';')
+
+/-- `urlparse(url, scheme)`: `urlsplit` followed by the `;params` split of the path. -/
+def urlparse (v6ok : Str → Bool) (url scheme : Str) : Except Exn Split :=
+  match urlsplit v6ok url scheme with
+  | .error e => .error e
+  | .ok r => .ok { r with path := splitParams r.path }
+
 /-- `_hostinfo` after the user-info has been removed. -/
 def hostinfoOf (hi : Str) : Str × Option Str :=
   let (_, haveBr, bracketed) := partition '[' hi
@@ -123,9 +138,12 @@ def parseUrl (v6ok : Str → Bool) (url : Str) : Except Exn Target :=
     match split1 ':' url with
     | (_, none) => .error (.internal "ValueError-unpack")            -- unreachable: ':' in url
     | (scheme, some rest) =>
-      if !("//".toList).isPrefixOf rest then .error .valueError      -- "url is invalid"
+      -- repaired code: `if not url.startswith("//"): raise ValueError`, then `urlsplit`;
+      -- before: no such test, `urlparse`                          (generated shape facts)
+      if Gen.parseUrlRequiresSlashes && !("//".toList).isPrefixOf rest then .error .valueError
       else
-        match urlsplit v6ok rest "http".toList with
+        match (if Gen.parseUrlUsesUrlsplit then urlsplit v6ok rest "http".toList
+               else urlparse v6ok rest "http".toList) with
         | .error e => .error e
         | .ok parsed =>
           match hostname parsed.netloc with
